@@ -51,8 +51,15 @@ def gen(pid, tier, rng, n=None, poison=None):
                     if rng.random() < 0.5:
                         probes.append((rng.choice(tids), (rng.choice(["fmtfail", "fmtpanic"]), c, l)))
             probes = probes[:6]
-        scens.append(b.scen(hist=hist, pre=pre, unw=unw, probes=probes,
-                            meta={"roots": [b.desc[c] for c in u.roots], "nt": nt}))
+        f1 = []
+        panics = any(op[0] == "panic" or (op[0] == "acq" and len(op) > 5 and ("panic",) in op[5]) for _, op in hist)
+        if pid == "C06" and not unw and not panics and rng.random() < 0.3:
+            # C06 has no hypotheses (C06_one_key holds of every scenario, fault plans included): one raw lock operation of the
+            # history panics; whatever the recovery code does, the key is obtainable again exactly when it is not alive
+            # (not next to user-code panics or inside an unwinding context: a second panic during unwinding aborts the process)
+            f1 = [rng.randrange(0, 10)]
+        scens.append(b.scen(hist=hist, pre=pre, unw=unw, probes=probes, f1=f1,
+                            meta={"roots": [b.desc[c] for c in u.roots], "nt": nt, "fault": bool(f1)}))
     if pid in BPIDS:
         bs = bprop.gen(pid, tier, rng, n=BCOUNT[tier] if full else max(1, n // 3))
         for s in bs:
@@ -102,6 +109,8 @@ def classify(s, r):
     if s.sched:
         return ["level=B"] + bprop.classify(s, r)
     out = ["level=A", "unwinding-context=" + str(bool(s.unw)), f"threads={s.meta['nt']}", f"len={len(s.hist)}"]
+    if s.meta.get("fault"):
+        out.append("one-raw-operation-panics=yes")
     codes = {}
     for o in r["obs"]:
         c = o.split("(", 1)[1].split(")", 1)[0].split()[0]
